@@ -77,6 +77,23 @@ def outer(base: int, scale: int) -> int:
 ''', ['Colour', 'Crimson', 'Teal', 'outer', 'base', 'scale', 'total', 'inner', 'step', 'values', 'picked', 'value']),
 }
 
+PROGRAMS['nested'] = ('''class Tree:
+	class Leaf:
+		weight: int
+
+		def __init__(self, weight: int) -> None:
+			self.weight = weight
+
+	def grow(self, amount: int) -> int:
+		leaf = Tree.Leaf(amount)
+		leaves = [Tree.Leaf(1), leaf]
+		return leaf.weight + leaves[0].weight
+
+
+def merge(shape: Tree, factor: int, other: Tree) -> int:
+	return shape.grow(factor) + other.grow(factor)
+''', ['Tree', 'Leaf', 'weight', 'grow', 'amount', 'leaf', 'leaves', 'merge', 'shape', 'factor', 'other'])
+
 POOL = ['Fig', 'Sh', 'Polygonal', 'zeta', 'a1', 'Alpha', 'omega_long_name', 'Tx', 'T_Anchor', 'T_Zed', 'mid', 'Qa', 'bb', 'Ccc', 'dddd', 'Ee_e', 'f6', 'Gamma', 'hh7', 'Iota', 'jk', 'Lam', 'mu_', 'Nu2', 'xi', 'Omicron', 'pi3', 'Rho']
 
 
@@ -88,6 +105,10 @@ def renamings(rnd, names, n):
 	fresh = sorted(rnd.sample(POOL, len(names)), reverse=True)
 	out.append(dict(zip(sorted_names, fresh)))
 	out.append({x: ('Node' + 'x' * i) for i, x in enumerate(names)})
+	# names that end like the receiver parameters (self / cls) and inner names that start with the outer name
+	tails = ['myself', 'subcls', 'scale__self', 'its_cls', 'oneself', 'Tcls']
+	out.append({x: (tails[i] if i < len(tails) else 'Keep' + x) for i, x in enumerate(reversed(names))})
+	out.append({x: (names[0] + '_' + x if i else names[0]) for i, x in enumerate(names)})
 	for _ in range(n):
 		out.append(dict(zip(names, rnd.sample(POOL, len(names)))))
 	return out
